@@ -18,6 +18,7 @@ func init() {
 func runC11(r *engine.Run) {
 	r.Rule("DOM-save", "in commit each arm of a kind that can be saved (branch, shared-prefix, value) calls Save(batcher) on the node before every success return of that arm, and descends into its dirty children first (branch: loop over all 16 slots; shared-prefix: its value); Commit saves the root likewise")
 	r.Rule("DOM-created", "in commit every node put into the batch is also reported on the created channel (and its previous hash, when different, on the deleted channel) on every success path of its arm, including the collapse-level paths: the created report is what cancels a pending delete of the same hash and what a rollback removes")
+	r.Rule("WHO-scheduled", "insert schedules a hash for collection only for the shared-prefix node it splits (the scheduled hash is Hash() of a value of static type *shortNode): a position it overwrites may receive content that hashes as before, and whether the old hash dies is commit's decision under its hash-changed test")
 	r.Rule("ORDER-survivor", "see C09: the hash of a node that stays in the trie is never scheduled for deletion")
 	r.Rule("WHO-nodelete", "no function reachable from Commit calls Batcher.Delete or StorageAdapter.Delete: a crash before the caller commits the batch cannot have removed anything")
 	r.Rule("ORDER-stage", "in DeleteNodes the keys handed to Delete derive only from the `deleted` set; the staged set (tempDeleted) is moved into `deleted` only after that batch and after `deleted` was cleared (two-phase deletion)")
@@ -39,6 +40,7 @@ func runC11(r *engine.Run) {
 	domSave(r)
 	domCreated(r, "DOM-created")
 	orderSurvivor(r, "ORDER-survivor")
+	whoScheduled(r, "WHO-scheduled")
 	whoNoDelete(r)
 	orderStage(r)
 	agreePurge(r)
